@@ -56,6 +56,9 @@ pub fn run(ctx: &mut Ctx) {
         }
         let base = ctx.rng_for(0, i);
         let text = gen_text(&base, 0);
+        if std::env::var("RVMON_DEBUG").is_ok() {
+            eprintln!("BASE TEXT:\n{text}");
+        }
         let ambiguous = recompute(ctx, i, &text);
         // metamorphic: shifted variants generated from the same stream
         let mut r = ctx.rng_for(1, i);
